@@ -42,9 +42,15 @@ func Auto(r *http.Request, obj any) (err error) {
 
 	// binding body data by content type.
 	cType := r.Header.Get("Content-Type")
+	// the media type only, without parameters. eg "application/json; charset=utf-8" -> "application/json"
+	mType := cType
+	if i := strings.IndexByte(mType, ';'); i >= 0 {
+		mType = mType[:i]
+	}
+	mType = strings.TrimSpace(mType)
 
 	// basic POST form data binding. content type: "application/x-www-form-urlencoded"
-	if strings.Contains(cType, "/x-www-form-urlencoded") {
+	if strings.HasSuffix(mType, "/x-www-form-urlencoded") {
 		if err = r.ParseForm(); err != nil {
 			return err
 		}
@@ -54,7 +60,7 @@ func Auto(r *http.Request, obj any) (err error) {
 
 	// contains file uploaded form: "multipart/form-data" "multipart/mixed"
 	// strings.HasPrefix(mediaType, "multipart/")
-	if strings.Contains(cType, "/form-data") {
+	if strings.HasSuffix(mType, "/form-data") {
 		err = r.ParseMultipartForm(DefaultMaxMemory)
 		if err != nil {
 			return err
@@ -64,12 +70,12 @@ func Auto(r *http.Request, obj any) (err error) {
 	}
 
 	// JSON body request: "application/json"
-	if strings.Contains(cType, "/json") {
+	if strings.HasSuffix(mType, "/json") {
 		return JSON.Bind(r, obj)
 	}
 
 	// XML body request: "text/xml"
-	if strings.Contains(cType, "/xml") {
+	if strings.HasSuffix(mType, "/xml") {
 		return XML.Bind(r, obj)
 	}
 
